@@ -58,6 +58,32 @@ def param_fn(e):
 SPLIT_SUFFIX = ["", "_b", "_c"]
 
 
+def matrix_fn(angle, axis):
+    """3x3 rotation matrix about a coordinate axis: a constant nested list, or a function of the named parameters returning
+    an (n, 3, 3) tensor"""
+    import math
+    i, j = {"z": (0, 1), "x": (1, 2), "y": (2, 0)}[axis]
+    vs = _vars_of(angle)
+    if not vs:
+        al = float(angle[1]) if G.is_aff(angle) else float(angle)
+        M = [[1.0 if r == c else 0.0 for c in range(3)] for r in range(3)]
+        M[i][i], M[i][j], M[j][i], M[j][j] = math.cos(al), -math.sin(al), math.sin(al), math.cos(al)
+        return M
+    base = "0.0*(%s)" % " + ".join(vs)
+    src = ("lambda %s: _rot3(torch.as_tensor(%s), %d, %d)" % (", ".join(vs), _scalar_src(angle, base), i, j))
+
+    def _rot3(al, i, j):
+        al = al.reshape(-1)
+        M = torch.zeros(len(al), 3, 3, dtype=al.dtype)
+        for r in range(3):
+            M[:, r, r] = 1.0
+        M[:, i, i], M[:, i, j], M[:, j, i], M[:, j, j] = torch.cos(al), -torch.sin(al), torch.sin(al), torch.cos(al)
+        return M
+    fn = eval(src, {"torch": torch, "_rot3": _rot3})
+    fn._src = src
+    return fn
+
+
 def space_of(var, dim, split=False):
     """split: the same space as a product of ONE-dimensional variables (var, var_b, var_c)"""
     if split and dim > 1:
@@ -102,6 +128,9 @@ def build_tp(a, split=False):
         return build_tp(a["a"], split) * build_tp(a["b"], split)
     if k == "translate":
         return Translate(build_tp(a["a"], split), param_fn(a["v"]))
+    if k == "rotate" and a.get("axis"):
+        around = None if a["around"] is None else param_fn(a["around"])
+        return Rotate(build_tp(a["a"], split), rotation_matrix=matrix_fn(a["angle"], a["axis"]), rotate_around=around)
     if k == "rotate":
         around = None if a["around"] is None else param_fn(a["around"])
         return Rotate.from_angles(build_tp(a["a"], split), param_fn(a["angle"]), rotate_around=around)
